@@ -154,6 +154,11 @@ func runC09(c *Ctx, ch Chooser, kind string, cached bool, nThreads int, onSub bo
 func suiteC09(c *Ctx) {
 	c.Cov.Rule = "lock-step: 2-4 threads ask one live scope (root or subscope) for the same counter/gauge/timer/histogram, each thread parked between the read-locked probe and the write lock (and between repeated calls); plain and cached reporter; each step validated against Model.GetOrCreate; oracle Spec.C09.holds on returned object identities, Allocate calls and delivered increments; nontrivial = at least two threads missed before any created; distinct by trace. Exhaustive enumeration for 2 and 3 threads; free-running stress of mixed first use + recording + report passes"
 	kinds := []string{"counter", "gauge", "timer", "histogram"}
+	for _, kind := range kinds {
+		for _, onSub := range []bool{false, true} {
+			c09AllocFault(c, kind, onSub)
+		}
+	}
 	n := c.N(200, 2000)
 	for i := 0; i < n; i++ {
 		r := c.Rng.Fork()
@@ -255,4 +260,62 @@ func suiteC09(c *Ctx) {
 		c.Cov.Eval(fmt.Sprintf("stress %d", r.U64()), true)
 		w.closer.Close()
 	}
+}
+
+// c09AllocFault: a fault at one point -- the cached reporter's Allocate call of a first use panics (the Prometheus
+// reporter does that on a registration conflict unless told otherwise) and the application recovers.  The scope must
+// stay usable: a later first use of the same kind on the same scope, recording, a report pass and the root's Close
+// complete ("... may be used concurrently without ... deadlock": a lock still held by the failed registration would
+// block every one of them).  A watchdog judges; a blocked goroutine is left behind.
+func c09AllocFault(c *Ctx, kind string, onSub bool) {
+	rc := newRecCached()
+	rc.log.Pre = func(e *Ev) {
+		if strings.HasPrefix(e.Kind, "alloc") && strings.HasSuffix(e.Name, "boom") {
+			panic("c09: allocation refused by the reporter")
+		}
+	}
+	root, closer := tally.VerifNewRootScope(tally.ScopeOptions{CachedReporter: rc, OmitCardinalityMetrics: true}, 0, 1)
+	sc := root
+	if onSub {
+		sc = root.SubScope("s")
+	}
+	use := func(name string) {
+		switch kind {
+		case "counter":
+			sc.Counter(name).Inc(1)
+		case "gauge":
+			sc.Gauge(name).Update(1)
+		case "timer":
+			sc.Timer(name).Record(time.Millisecond)
+		default:
+			sc.Histogram(name, tally.ValueBuckets{1, 2}).RecordValue(1.5)
+		}
+	}
+	line := fmt.Sprintf("cached reporter whose Allocate panics for the name boom; %s first use on %s, recovered; then a first use of another name, a report pass, Close", kind, map[bool]string{false: "the root", true: "a subscope"}[onSub])
+	if p, _ := catch(func() { use("boom") }); !p {
+		c.Cov.Fail(Failure{Kind: "bad-op", Clause: "harness", Signature: "c09-alloc-fault-not-injected", Line: line})
+		return
+	}
+	done := make(chan interface{}, 1)
+	go func() {
+		_, v := catch(func() {
+			use("ok")
+			tally.VerifReportOnce(root)
+			closer.Close()
+		})
+		done <- v
+	}()
+	select {
+	case v := <-done:
+		if v != nil {
+			c.Cov.Fail(Failure{Kind: "crash", Clause: "no-panic", Signature: "c09-panic-after-recovered-allocation-panic", Line: line, Reply: fmt.Sprint(v)})
+			return
+		}
+	case <-time.After(2 * time.Second):
+		c.Cov.Fail(Failure{Kind: "crash", Clause: "no-deadlock", Signature: "c09-lock-held-after-allocation-panic", Line: line,
+			Reply: "the scope is stuck 2s after the recovered panic: a lock taken by the failed registration is still held"})
+		return
+	}
+	c.Cov.Hit("alloc-fault." + kind)
+	c.Cov.Eval(line, true)
 }
